@@ -311,7 +311,31 @@ func (vc *VC) callSpec(sf *SpecFunc, args []Val, st, old *State) Val {
 
 // specDecls renders the definitions of all spec functions used, dependencies
 // first; recursive groups use define-funs-rec.
-func (vc *VC) specDecls() string {
+func (vc *VC) specDecls() string { return vc.specDeclsFor(nil) }
+
+// specClosure: the given spec names plus everything their definitions use.
+func (vc *VC) specClosure(names map[string]bool) map[string]bool {
+	tab := vc.specs()
+	out := map[string]bool{}
+	var visit func(n string)
+	visit = func(n string) {
+		if out[n] {
+			return
+		}
+		out[n] = true
+		if si, ok := tab.infos[n]; ok {
+			for d := range si.deps {
+				visit(d)
+			}
+		}
+	}
+	for n := range names {
+		visit(n)
+	}
+	return out
+}
+
+func (vc *VC) specDeclsFor(only map[string]bool) string {
 	tab := vc.specs()
 	// close over dependencies
 	used := map[string]bool{}
@@ -328,7 +352,9 @@ func (vc *VC) specDecls() string {
 		}
 	}
 	for n := range vc.usedSpecs {
-		visit(n)
+		if only == nil || only[n] {
+			visit(n)
+		}
 	}
 	// Tarjan SCC
 	index := map[string]int{}
@@ -518,7 +544,7 @@ func (vc *VC) specFrame(oldHeap func(comp string) string, st *State, changed map
 		}
 		app1 := sx("spec_"+n, newArgs...)
 		app0 := sx("spec_"+n, oldArgs...)
-		vc.local(fmt.Sprintf("(forall (%s) (! (=> %s (= %s %s)) :pattern (%s)))", strings.Join(binders, " "), and(guards...), app1, app0, app1))
+		vc.localSpec(n, fmt.Sprintf("(forall (%s) (! (=> %s (= %s %s)) :pattern (%s)))", strings.Join(binders, " "), and(guards...), app1, app0, app1))
 	}
 }
 
@@ -571,7 +597,7 @@ func (vc *VC) specEntryFrame(sf *SpecFunc, si *specInfo, st *State) {
 	}
 	app1 := sx("spec_"+sf.Name, newArgs...)
 	app0 := sx("spec_"+sf.Name, oldArgs...)
-	vc.global(fmt.Sprintf("(forall (%s) (! (=> %s (= %s %s)) :pattern (%s)))", strings.Join(binders, " "), and(guards...), app1, app0, app1))
+	vc.facts = append(vc.facts, Fact{blk: -1, text: fmt.Sprintf("(forall (%s) (! (=> %s (= %s %s)) :pattern (%s)))", strings.Join(binders, " "), and(guards...), app1, app0, app1), spec: sf.Name})
 }
 
 func (vc *VC) snapshotHeaps(st *State) map[string]string {
@@ -640,14 +666,15 @@ func (vc *VC) relevantSpecs() map[string]bool {
 
 // storeSpecFrames emits frame facts for recursive spec predicates across a
 // store (or allocation with zero-initialisation):
-//   rule A  the written object was allocated in this function and its address
-//           has not been used for anything but loads and stores yet: nothing
-//           allocated before it can reach it (heap closure), so predicates
-//           over earlier objects are unaffected;
-//   rule S  for predicates declared "ordered" (their definition only descends
-//           to children allocated after the parent): a store into an object
-//           allocated in this function before the predicate's first argument
-//           cannot affect it, the other pointer arguments being pre-existing.
+//
+//	rule A  the written object was allocated in this function and its address
+//	        has not been used for anything but loads and stores yet: nothing
+//	        allocated before it can reach it (heap closure), so predicates
+//	        over earlier objects are unaffected;
+//	rule S  for predicates declared "ordered" (their definition only descends
+//	        to children allocated after the parent): a store into an object
+//	        allocated in this function before the predicate's first argument
+//	        cannot affect it, the other pointer arguments being pre-existing.
 func (vc *VC) storeSpecFrames(before map[string]string, st *State, alloc *ssa.Alloc, addr string) {
 	if vc.fn == nil || vc.preparing {
 		return
@@ -739,7 +766,7 @@ func (vc *VC) storeSpecFrames(before map[string]string, st *State, alloc *ssa.Al
 			}
 			app1 := sx("spec_"+n, newArgs...)
 			app0 := sx("spec_"+n, oldArgs...)
-			vc.local(fmt.Sprintf("(forall (%s) (! (=> %s (= %s %s)) :pattern (%s)))", strings.Join(binders, " "), and(guards...), app1, app0, app1))
+			vc.localSpec(n, fmt.Sprintf("(forall (%s) (! (=> %s (= %s %s)) :pattern (%s)))", strings.Join(binders, " "), and(guards...), app1, app0, app1))
 		}
 		if ruleA {
 			emit(true)
